@@ -48,7 +48,7 @@ func checkC15(c *Ctx) {
 		return s.Op == "call" && s.Name == funcName(perm) && len(s.Args) == 1 && s.Args[0].Op == "param"
 	}
 	// ---- R1 -----------------------------------------------------------------------
-	for _, b := range trans.Blocks {
+	for _, b := range liveBlocks(trans) {
 		ret, ok := b.Instrs[len(b.Instrs)-1].(*ssa.Return)
 		if !ok || b == trans.Recover {
 			continue
@@ -67,7 +67,7 @@ func checkC15(c *Ctx) {
 		}
 	}
 	nilEdge := false
-	for _, b := range perm.Blocks {
+	for _, b := range liveBlocks(perm) {
 		ret, ok := b.Instrs[len(b.Instrs)-1].(*ssa.Return)
 		if !ok || b == perm.Recover {
 			continue
@@ -105,7 +105,7 @@ func checkC15(c *Ctx) {
 		return t != nil && strings.HasSuffix(types.TypeString(t, shortQual), "**leader.TimeoutError") || strings.Contains(s.Args[1].String(), "timeoutErr")
 	}
 	nTrue := 0
-	for _, b := range perm.Blocks {
+	for _, b := range liveBlocks(perm) {
 		ret, ok := b.Instrs[len(b.Instrs)-1].(*ssa.Return)
 		if !ok || b == perm.Recover {
 			continue
